@@ -142,9 +142,92 @@ Definition tags (i : input) : list Z :=
       end
   end.
 
+(* ---------- retry scenarios: (7 cfg parts (attempt...) cancel), attempt = (committed wms assign_err) ----------
+   observation = (number of Committed() calls, every Assign argument in order, every broadcast in order,
+   the recovery consumer's owned list at the end) *)
+Record rinput := { r_cfg : acfg; r_parts : list Z; r_atts : list attempt; r_cancel : nat }.
+Record robs := { ro_calls : nat; ro_assigns : list (list (Z * Z)); ro_sent : list bcast; ro_owned : option (list (Z * Z)) }.
+
+(* a loop that ends without success ended by the revocation, which also empties the recovery consumer's owned
+   list (revokePartitionAssignments: SetAssignedPartitions([]) when parallel recovery is on) *)
+Definition last_owned (rc : bool) (rs : list ares) : option (list (Z * Z)) :=
+  match rev rs with
+  | r :: _ => if a_err r then (if rc then Some [] else None) else a_owned r
+  | [] => None
+  end.
+Fixpoint opt_list {A} (l : list (option A)) : list A :=
+  match l with [] => [] | Some x :: r => x :: opt_list r | None :: r => opt_list r end.
+
+Definition model_robs (i : rinput) : robs :=
+  let rs := retry (r_cfg i) (r_parts i) (r_atts i) (r_cancel i) in
+  {| ro_calls := length rs; ro_assigns := opt_list (map a_assign rs);
+     ro_sent := snd (file_all [] (flat_map a_filed rs)); ro_owned := last_owned (recov (r_cfg i)) rs |}.
+
+(* whether an attempt's broker answers make it fail (Committed error, a watermark error among those asked, Assign error) *)
+Definition attempt_fails (parts : list Z) (a : attempt) : bool :=
+  match at_com a with
+  | CErr => true
+  | COk _ => match all_ok (firstn (length parts) (at_wms a)) with None => true | Some _ => at_fail a end
+  end.
+(* number of attempts the property prescribes: keep trying after every failure until success or revocation *)
+Fixpoint expected_attempts (parts : list Z) (atts : list attempt) (cancel : nat) : nat :=
+  match atts with
+  | [] => 0%nat
+  | a :: rest => S (if attempt_fails parts a then match cancel with O => 0%nat | S c => expected_attempts parts rest c end else 0%nat)
+  end.
+
+(* clause 5: a failed assignment is retried (as many attempts as prescribed, no more);
+   clause 6: the recovery consumer ends up owning exactly what the successful attempt assigned, or nothing new *)
+Definition spec_c06_retry (i : rinput) (o : robs) : list Z :=
+  (if Nat.eqb (ro_calls o) (expected_attempts (r_parts i) (r_atts i) (r_cancel i)) then [] else [5])
+  ++ (match ro_owned o with
+      | Some l => if (match l with [] => true | _ => existsb (fun a => list_eqb zz_eqb a l) (ro_assigns o) end) && recov (r_cfg i) then [] else [6]
+      | None => []
+      end).
+
+Definition dec_attempt (t : tree) : option attempt :=
+  match t with
+  | T [com; wms; af] => com <- dec_cres com ;; wms <- getList dec_wres wms ;; af <- getB af ;;
+      Some {| at_com := com; at_wms := wms; at_fail := af |}
+  | _ => None
+  end.
+Definition dec_rinput (t : tree) : option rinput :=
+  match t with
+  | T [L 7; T [L ml; rc; L mr]; parts; atts; cancel] =>
+      rc <- getB rc ;; parts <- getZs parts ;; atts <- getList dec_attempt atts ;; cancel <- getNat cancel ;;
+      Some {| r_cfg := {| maxlag := ml; recov := rc; maxrec := mr |}; r_parts := parts; r_atts := atts; r_cancel := cancel |}
+  | _ => None
+  end.
+Definition dec_robs (t : tree) : option robs :=
+  match t with
+  | T [n; assigns; sent; owned] =>
+      n <- getNat n ;; assigns <- getList (getList dec_pair) assigns ;; sent <- getList dec_bcast sent ;;
+      owned <- getOpt (getList dec_pair) owned ;;
+      Some {| ro_calls := n; ro_assigns := assigns; ro_sent := sent; ro_owned := owned |}
+  | _ => None
+  end.
+Definition enc_robs (o : robs) : tree :=
+  T [ofNat (ro_calls o); ofList (ofList enc_pair) (ro_assigns o); ofList enc_bcast (ro_sent o);
+     ofOpt (ofList enc_pair) (ro_owned o)].
+(* components: 5 number of attempts, 2 Assign arguments, 3 broadcasts, 4 owned *)
+Definition robs_diffs (a b : robs) : list Z :=
+  diff_if (Nat.eqb (ro_calls a) (ro_calls b)) 5
+  ++ diff_if (list_eqb (list_eqb zz_eqb) (ro_assigns a) (ro_assigns b)) 2
+  ++ diff_if (sent_eqb (ro_sent a) (ro_sent b)) 3 ++ diff_if (assign_eqb (ro_owned a) (ro_owned b)) 4.
+
+Definition judge_retry (ti tobs : tree) : tree :=
+  match dec_rinput ti, dec_robs tobs with
+  | Some i, Some o =>
+      let m := model_robs i in
+      verdict (robs_diffs m o) (map (fun c => clause 6 c []) (spec_c06_retry i o)) (enc_robs m)
+              ([20] ++ (if Nat.ltb 1 (ro_calls m) then [21] else []) ++ (if Nat.ltb (ro_calls m) (length (r_atts i)) then [22] else []))
+  | _, _ => malformed
+  end.
+
 (* case := T [input; impl_obs] *)
 Definition judge (t : tree) : tree :=
   match t with
+  | T [(T (L 7 :: _)) as ti; to] => judge_retry ti to
   | T [ti; to] =>
       match dec_input ti, dec_obs to with
       | Some i, Some o =>
